@@ -155,7 +155,7 @@ def render(st, n, opts=None):
             if cname in port_names or cname in CONST or cname in alias_net_names:
                 continue
             ck = st["cabData"][c - 1].get("k", "")
-            w("  %swire %s%s;" % (('(* A = "%s" *) ' % ck) if ck else "", rng(len(wires), a["lower"]), ident(cname)))
+            w("  %swire %s%s;" % (('(* A = "%s  w" *) ' % ck) if ck else "", rng(len(wires), a["lower"]), ident(cname)))
 
         def bitref(wi):
             cname, k, width, lower = cab_of_wire[wi]
@@ -266,7 +266,7 @@ def render(st, n, opts=None):
                 args = sepc.join(".%s(%s)" % (ident(pn, False), e) for pn, e in conns)
             ik = st["instData"][i - 1].get("k", "")
             ip = st["instData"][i - 1].get("props", "")
-            w("  %s%s %s%s(%s);" % (('(* A = "%s" *) ' % ik) if ik else "", modname(st["defData"][r - 1]["name"]),
+            w("  %s%s %s%s(%s);" % (('(* A = "%s\tw" *) ' % ik) if ik else "", modname(st["defData"][r - 1]["name"]),
                                   ("#(.P(%s)) " % ip) if ip else "", ident(st["instData"][i - 1]["name"]), args))
         w("endmodule")
         if is_leaf and opts.get("celldefine"):
